@@ -14,6 +14,9 @@ mod hist;
 mod total;
 mod leak;
 mod misc;
+mod sched;
+mod purity;
+mod front;
 
 #[global_allocator]
 static GLOBAL: leak::Counting = leak::Counting;
@@ -29,6 +32,10 @@ fn main() {
     script::init_module_specials(&report::repo_dir());
     if args.len() >= 3 && args[1] == "--replay" {
         std::process::exit(checks_e1::replay(&args[2]));
+    }
+    if args.len() >= 3 && args[1] == "--digests" {
+        purity::print_digests(&args[2]);
+        return;
     }
     if args.len() >= 5 && args[1] == "--trace" {
         let cfg = run::Cfg::new(args[2].parse().unwrap()).flags(true, true).range(args[3].parse().unwrap(), args[3].parse().unwrap());
@@ -96,10 +103,12 @@ fn main() {
     }
     let code = match prop {
         "C01" | "C02" | "C03" | "C05" | "C17" | "C04" | "C06" | "C10" => checks_e1::check(prop, tier),
+        "C07" => purity::c07(tier),
         "C08" => hist::c08(tier),
         "C09" => total::c09(tier),
         "C11" => misc::c11(tier),
         "C12" => misc::c12(tier),
+        "C13" => front::c13(tier),
         "C14" => leak::c14(tier),
         "C15" => checks_e1::check_c15(tier),
         "C16" => units::c16(tier),
